@@ -3,7 +3,9 @@
   `projG` (the gate) and `projR` (rlock). Every RwLock step is, on each projection, a stutter, a step of the Mutex
   model, or a Mutex step combined with handing the `held` role to / from a *virtual* actor:
     actor `n`     = "the outstanding write guard"     (held iff WG > 0)
-    actor `n + 1` = "the reader group"                (held iff grp)
+    actor `n + 1` = "the reader group"                (held iff grp, i.e. from the first reader's `*r += 1` to the last
+                                                       reader's `*r -= 1`; in between acquiring / releasing the gate
+                                                       and those accesses the acting reader itself is the holder)
   so the invariant proved for C05 (`Mutex.Inv`, `Mutex.inv_step`) carries over to both components.
 -/
 import MayVerif.Model.Sync.RwLock
@@ -18,6 +20,8 @@ open MayVerif.Mutex (upd)
   | .gul _ p => p
   | .psn o => if reader o then .idle else .held
   | .wpo => .held
+  | .rinc _ first => if first then .held else .idle     -- the first reader still holds the gate itself
+  | .rck last => if last then .held else .idle          -- the last reader has taken the gate back from the group
   | _ => .idle
 
 /-- this actor's program point in the rlock component -/
@@ -25,6 +29,10 @@ open MayVerif.Mutex (upd)
   | .rlk _ p => p
   | .rul _ _ p => p
   | .rlp _ => .held
+  | .rld _ => .held
+  | .rinc _ _ => .held
+  | .rdec => .held
+  | .rck _ => .held
   | .gld o => if reader o then .held else .idle
   | .glk o _ => if reader o then .held else .idle
   | .psn o => if reader o then .held else .idle
@@ -191,30 +199,29 @@ theorem gate_step (n : Nat) (sh sh' : Sh) (pcs : Nat → Pc) (t : Nat) (pc' : Pc
   simp only [projG, hw, hgr, pG_upd _ _ _ _ _ _ ht]
   exact h1
 
-/-- the step is a Mutex step that acquires the gate for the reader group -/
-theorem gate_acq_grp (n : Nat) (sh sh' : Sh) (pcs : Nat → Pc) (t : Nat) (pc' : Pc) (e : Mutex.Env) (ht : t < n)
-    (h : Mutex.Inv (projG ⟨n, sh, pcs⟩)) (hm : Mutex.tstep sh.g t (gpc (pcs t)) e = some (sh'.g, .held))
-    (hp : gpc pc' = .idle) (hw : sh'.WG = sh.WG) (hgr : sh'.grp = true) :
+/-- the first reader counts itself: the `held` role goes from that actor to the virtual reader group -/
+theorem gate_to_G (n : Nat) (sh sh' : Sh) (pcs : Nat → Pc) (t : Nat) (pc' : Pc) (ht : t < n)
+    (h : Mutex.Inv (projG ⟨n, sh, pcs⟩)) (hcur : gpc (pcs t) = .held) (hp : gpc pc' = .idle)
+    (hg : sh'.g = sh.g) (hw : sh'.WG = sh.WG) (hgr : sh'.grp = true) :
     Mutex.Inv (projG ⟨n, sh', upd pcs t pc'⟩) ∧ sh.grp = false := by
-  have h1 := minv_tstep (n + 2) sh.g (pG n pcs sh.WG sh.grp) t e sh'.g .held h (by omega)
-    (by rw [pG_at _ _ _ _ _ ht]; exact hm)
   have hne : n + 1 ≠ t := by omega
   have hG : sh.grp = false := by
     cases hgv : sh.grp
     · rfl
     · exfalso
-      have := h1.g1 t (n + 1) (by simp [upd, Mutex.carrierA]) (by simp [upd, hne, pG_atG, vG, hgv, Mutex.carrierA])
+      have := h.g1 t (n + 1) (by simp [projG, pG_at _ _ _ _ _ ht, hcur, Mutex.carrierA])
+        (by simp [projG, pG_atG, vG, hgv, Mutex.carrierA])
       omega
   refine ⟨?_, hG⟩
-  have h2 := minv_xfer (n + 2) sh'.g _ t (n + 1) h1 (by simp [upd]) (by simp [upd, hne, pG_atG, vG, hG]) (by omega) (by omega)
-  have : pG n (upd pcs t pc') sh'.WG sh'.grp
-      = upd (upd (upd (pG n pcs sh.WG sh.grp) t .held) t .idle) (n + 1) .held := by
+  have h2 := minv_xfer (n + 2) sh.g (pG n pcs sh.WG sh.grp) t (n + 1) h (by rw [pG_at _ _ _ _ _ ht]; exact hcur)
+    (by simp [pG_atG, vG, hG]) (by omega) (by omega)
+  have : pG n (upd pcs t pc') sh'.WG sh'.grp = upd (upd (pG n pcs sh.WG sh.grp) t .idle) (n + 1) .held := by
     rw [pG_all n pcs sh.WG sh'.WG sh.grp sh'.grp t pc' ht, hp, hw, hgr]
     funext u
     have hW := pG_atW n pcs sh.WG sh.grp
     simp only [upd, vG]
     by_cases h1 : u = n + 1 <;> by_cases h2 : u = n <;> by_cases h3 : u = t <;> simp_all <;> omega
-  simp only [projG, this]
+  simp only [projG, hg, this]
   exact h2
 
 /-- the write guard is handed out: the `held` role goes from the returning actor to the virtual guard actor -/
@@ -266,22 +273,22 @@ theorem gate_from_W (n : Nat) (sh sh' : Sh) (pcs : Nat → Pc) (t : Nat) (pc' : 
   · simp only [projG, hg, key _ hp]
     exact minv_tstep (n + 2) sh.g _ t .unlock sh.g (.p0fadd .fin) h2 (by omega) (by simp [upd, Mutex.tstep])
 
-/-- the last reader leaves: the `held` role goes from the virtual reader group to the actor, which enters `unlock()` -/
+/-- the last reader un-counts itself: the `held` role goes from the virtual reader group to that actor -/
 theorem gate_from_G (n : Nat) (sh sh' : Sh) (pcs : Nat → Pc) (t : Nat) (pc' : Pc) (ht : t < n)
-    (h : Mutex.Inv (projG ⟨n, sh, pcs⟩)) (hcur : gpc (pcs t) = .idle) (hp : gpc pc' = .p0fadd .fin)
+    (h : Mutex.Inv (projG ⟨n, sh, pcs⟩)) (hcur : gpc (pcs t) = .idle) (hp : gpc pc' = .held)
     (hg : sh'.g = sh.g) (hw : sh'.WG = sh.WG) (hgr0 : sh.grp = true) (hgr : sh'.grp = false) :
     Mutex.Inv (projG ⟨n, sh', upd pcs t pc'⟩) := by
   have hne : n + 1 ≠ t := by omega
   have h2 := minv_xfer (n + 2) sh.g (pG n pcs sh.WG sh.grp) (n + 1) t h (by simp [pG_atG, vG, hgr0])
     (by rw [pG_at _ _ _ _ _ ht]; exact hcur) (by omega) (by omega)
-  have key : pG n (upd pcs t pc') sh'.WG sh'.grp = upd (upd (upd (pG n pcs sh.WG sh.grp) (n + 1) .idle) t .held) t (.p0fadd .fin) := by
+  have key : pG n (upd pcs t pc') sh'.WG sh'.grp = upd (upd (pG n pcs sh.WG sh.grp) (n + 1) .idle) t .held := by
     rw [pG_all n pcs sh.WG sh'.WG sh.grp sh'.grp t pc' ht, hp, hw, hgr]
     funext u
     have hWv := pG_atW n pcs sh.WG sh.grp
     simp only [upd, vG]
     by_cases h1 : u = n + 1 <;> by_cases h2 : u = n <;> by_cases h3 : u = t <;> simp_all <;> omega
   simp only [projG, hg, key]
-  exact minv_tstep (n + 2) sh.g _ t .unlock sh.g (.p0fadd .fin) h2 (by omega) (by simp [upd, Mutex.tstep])
+  exact h2
 
 /-- the step does not concern rlock -/
 theorem rl_same (n : Nat) (sh sh' : Sh) (pcs : Nat → Pc) (t : Nat) (pc' : Pc) (ht : t < n)
